@@ -2,6 +2,9 @@
 from contracts_types import *
 NAME = 'quoting'
 FEATURES = []
+# serialize_str#block costs 54-126 M resource units depending on the solver seed (measured over nine seeds; it never diverges):
+# the default limit of 30 (90 M) sits inside that range, so this unit asks for 60 (180 M)
+RLIMIT = 60
 USES = ['use vstd::string::*;', 'use vstd::utf8::*;']
 PRELUDE = ['crop.spec.rs', 'crop.shim.rs', 'plain.spec.rs', 'plain.shim.rs', 'quoting.shim.rs', 'quoting.spec.rs']
 SUBST = [
@@ -503,3 +506,26 @@ def _split_known_findings():
     main['proofs'] = [p for p in main['proofs'] if p.get('label') not in _KF]
     ITEMS.insert(idx + 1, kf)
 _split_known_findings()
+# ---- the whole of SeqSer::end / MapSer::end (C20): ending a non-empty block collection writes nothing and leaves the
+# keep-chomping mark of its last scalar alone (SpaceAfter consults it: F27) ----
+def _end_whole(impl, sid, wrapper_params, pre):
+    return dict(src=SR, path='impl %s/fn end' % impl, id='%s::end#whole' % sid, props=['C20', 'C01'],
+         fragment=r'(?<=fn end\(self\) -> Result<\(\)> \{).*(?=\}\s*$)', fragment_flags='S',   # the whole body
+         wrapper="fn %s_end_whole<'a>(ser: &mut YamlSerializer<'a>, %s) -> Result<(), SerError> { {FRAG} }" % (sid.lower(), wrapper_params),
+         pre_rewrites=[(r'let me = self;', '', None, 'R9'), (r'\bme\.ser\.', 'ser.', None, 'R9'), (r'\bself\.ser\.', 'ser.', None, 'R9')] + pre,
+         loop_rewrites=[(1, 'range')] if sid == 'MapSer' else [],
+         requires=[('indent_fits', 'old(ser).indent_step * depth <= usize::MAX')],
+         proofs=[dict(at='start', text='reveal_strlit("]"); reveal_strlit("}"); reveal_strlit("[]"); reveal_strlit("{}"); reveal_strlit(" "); reveal_strlit("  ");')] + ([dict(at='start', text='''let st = ser.indent_step as int; let d0 = depth as int; let b0 = if d0 >= 1 { d0 - 1 } else { 0int };
+                      assert(st * b0 <= st * d0) by(nonlinear_arith) requires 0 <= b0 <= d0, st >= 0;''')] if sid == 'MapSer' else []),
+         ensures=[('C20:ending_a_non_empty_block_collection_writes_nothing_and_keeps_the_mark_of_its_last_scalar',
+                   'r is Ok && !flow && !first ==> final(ser).out.text() == old(ser).out.text() && final(ser).last_scalar_kept_breaks == old(ser).last_scalar_kept_breaks && final(ser).at_line_start == old(ser).at_line_start'),
+                  ('C20:a_flow_collection_is_closed_by_its_bracket_and_a_line_break_only_at_the_outermost_level',
+                   "r is Ok && flow ==> final(ser).out.text() == (if old(ser).in_flow == 0 { old(ser).out.text().push('%s').push('\\n') } else { old(ser).out.text().push('%s') })" % (('}', '}') if sid == 'MapSer' else (']', ']')))],
+         loops=({1: dict(invariant=[('frame', '__i1 <= __n1 && ser.empty_as_braces == old(ser).empty_as_braces && ser.in_flow == old(ser).in_flow')], decreases='__n1 - __i1')} if sid == 'MapSer' else {}),
+         canaries=['C20:ending_a_non_empty_block_collection_writes_nothing_and_keeps_the_mark_of_its_last_scalar'])
+ITEMS += [
+    _end_whole('SerializeSeq for SeqSer', 'SeqSer', 'depth: usize, flow: bool, first: bool',
+               [(r'\bself\.depth\b', 'depth', None, 'R9'), (r'\bself\.flow\b', 'flow', None, 'R9'), (r'\bself\.first\b', 'first', None, 'R9')]),
+    _end_whole('SerializeMap for MapSer', 'MapSer', 'depth: usize, flow: bool, first: bool, align_after_dash: bool',
+               [(r'\bself\.depth\b', 'depth', None, 'R9'), (r'\bself\.flow\b', 'flow', None, 'R9'), (r'\bself\.first\b', 'first', None, 'R9'), (r'\bself\.align_after_dash\b', 'align_after_dash', None, 'R9')]),
+]
